@@ -200,3 +200,42 @@ func (w *world) regKeys(ids []int) []string {
 	}
 	return out
 }
+
+// progressOracle states "pending when execution can no longer proceed": the idle handler may only be
+// called once every resolver whose object is available has been called. A field on an object that
+// came out of a promise fulfilled in idle round r (a Go task's, observed in the promise buffer when
+// the handler returned; a batch invocation's, in the round its batch function was called) — or out of
+// a synchronous parent called after round r — must have its resolver called before idle round r+1
+// begins. Otherwise later waves see only part of the invocations that belong together (one batch call
+// per list item instead of one per wave) although every response is still correct.
+func (w *world) progressOracle() string {
+	for _, x := range w.invList {
+		if x.parent == "" {
+			continue
+		}
+		p := w.invMap[x.parent]
+		if p == nil || p.exec != x.exec {
+			continue
+		}
+		want := p.round
+		how := "was resolved synchronously after"
+		switch {
+		case p.t != nil:
+			if p.t.deliveredRound < 0 {
+				continue
+			}
+			want, how = p.t.deliveredRound, "came out of a Go promise fulfilled at"
+		case p.r != nil:
+			if p.r.flushed <= 0 {
+				continue
+			}
+			want, how = p.r.flushed, "came out of the batch call of"
+		case p.conn && p.connAsync:
+			continue
+		}
+		if x.round != want {
+			return fmt.Sprintf("the resolver of %s was first called after idle point %d although its object (%s) %s idle point %d: the idle handler was invoked while execution could still proceed, so the invocations pending at idle point %d were not all that belong to the wave", x.key, x.round, p.key, how, want, want+1)
+		}
+	}
+	return ""
+}
